@@ -193,10 +193,17 @@ CLAIMS = {
               "chosen combination; a grouping is kept iff every step passed get_mutually_allowed on all its gates, which tests every ordered pair; "
               "(Q7) the constraint an operation puts on a qubit: a member qubit may do nothing else, a far qubit is free, a neighbour is forbidden "
               "every intersecting gate plus idle-and-non-moving gates when it must park plus park-and-moving gates when it must idle; allowed = "
-              "possible (idle, park, every edge, of every qubit) minus the constraints of every qubit."),
-        note=("NOT decided (out of reach for this family): the exhaustive statement 'accepted exactly when no qubit takes part in two gates and no two "
-              "neighbours share an operating level' over all subsets of up to four of the 24 edges -- that is enumeration / model checking of "
-              "get_forbidden_operations, not a shape-of-the-code fact. The rules above are necessary conditions of it. Trusted: itertools.combinations."),
+              "possible (idle, park, every edge, of every qubit) minus the constraints of every qubit; (Q9) the device primitives those skeletons are "
+              "written in: an edge contains exactly its two qubits and pairs each with the other, the edges of a qubit are ALL device edges containing "
+              "it, its neighbours the partners on all of them, the spectators of a gate the neighbours of BOTH its qubits, the group of a qubit its "
+              "table entry; (Q8) with every function pinned to its skeleton, the exhaustive statement is a fact about the literal device tables and is "
+              "evaluated in the checker's own transcription of the skeletons over the extracted tables: for all 12950 subsets of up to four of the 24 "
+              "edges acceptance == collision-freedom, and for all qubit-disjoint subsets and idle qubits requires-parking == neighbours the moving "
+              "member of an active gate at that gate's operating level."),
+        note=("The exhaustive clause is decided for the skeletons, not by running the repository's functions: Q8 is sound only together with Q1, Q3..Q7, "
+              "Q9 (each an equivalence with the transcribed skeleton); it does not enumerate get_forbidden_operations itself. The parking clause is "
+              "stated for qubit-disjoint gate sets (for overlapping gates the repository pairs a neighbour with the first gate that contains it). "
+              "Trusted: itertools.combinations; list membership / unique_in_order semantics."),
         technique="static analysis: truth tables over enum domains, literal table evaluation, sibling-mirror comparison of normal forms, loop summaries",
     ),
     "C17": dict(
